@@ -174,10 +174,7 @@ int main(int argc, char** argv) {
     const bool propMsg = msg.find("interpolates to") != std::string::npos || msg.find("lies outside source triangle") != std::string::npos;
     const bool zeroMsg = msg.find("has only") != std::string::npos && msg.find("channels") != std::string::npos;
     const bool geomMsg = zeroMsg || msg.find("lies in the plane of no face") != std::string::npos || msg.find("from the plane of face") != std::string::npos || msg.find("is oriented against") != std::string::npos || msg.find("is not planar") != std::string::npos;
-    if (propMsg && P.desc.find("pseam") != std::string::npos && (P.desc.find(";add") != std::string::npos || P.desc.find(";sub") != std::string::npos || P.desc.find(";int") != std::string::npos ||
-                         P.desc.find(";split") != std::string::npos || P.desc.find(";batch") != std::string::npos || P.desc.find(";plane") != std::string::npos) &&
-             P.desc.find("(self)") == std::string::npos && P.desc.find("(coincident)") == std::string::npos) msg = "pseam-boolean: " + msg;
-    else if ((propMsg || geomMsg) && (P.desc.find("(self)") != std::string::npos || P.desc.find("(coincident)") != std::string::npos)) msg = "coincident-boolean: " + msg;
+    if ((propMsg || geomMsg) && (P.desc.find("(self)") != std::string::npos || P.desc.find("(coincident)") != std::string::npos)) msg = "coincident-boolean: " + msg;
     hz::emit(tag, exportRequest(*impl), exportAnswer(g, normalsRewritten(*impl)), msg.empty(), msg);
     if (g.NumTri() > 0) {
       nonEmpty++; if (g.runOriginalID.size() > 1) multiRun++; if (g.numProp > 3) withProps++; if (!g.mergeFromVert.empty()) withMerge++;
